@@ -165,14 +165,14 @@ func (e *TemplateJoinExpr) Value(ctx *hcl.EvalContext) (cty.Value, hcl.Diagnosti
 		panic("TemplateJoinExpr got null tuple")
 	}
 	if tuple.Type() == cty.DynamicPseudoType {
-		return cty.UnknownVal(cty.String), diags
+		return cty.UnknownVal(cty.String).WithSameMarks(tuple), diags
 	}
 	if !tuple.Type().IsTupleType() {
 		// This indicates a bug in the code that constructed the AST.
 		panic("TemplateJoinExpr got non-tuple tuple")
 	}
 	if !tuple.IsKnown() {
-		return cty.UnknownVal(cty.String), diags
+		return cty.UnknownVal(cty.String).WithSameMarks(tuple), diags
 	}
 
 	tuple, marks := tuple.Unmark()
